@@ -347,6 +347,8 @@ static void serialise_current(const RunCfg &cfg, const RunOut &out, std::string 
     j += " \"decoded_plan\": ";
     j += pd;
     j += ",\n";
+    snprintf(b, sizeof b, " \"memory_model\": \"%s\",\n", g.tso ? "x86-TSO store buffering" : "sequentially consistent");
+    j += b;
     snprintf(b, sizeof b, " \"granularity\": %d,\n \"threads\": %d,\n \"steps\": %lu,\n \"switches\": %lu,\n",
              g.granularity, g.nthreads, (unsigned long)g.steps, (unsigned long)g.switches);
     j += b;
@@ -514,6 +516,7 @@ struct MsgBatch
   uint64_t hb_overflow_runs;
   uint64_t g0_runs, g1_runs;
   uint64_t strat_runs[4];
+  uint64_t tso_runs, tso_stores, tso_delays;
   char incidental_first[200];
 };
 
@@ -695,6 +698,9 @@ static void batch_accumulate()
   else
     g_batch.g0_runs++;
   g_batch.strat_runs[g.strategy & 3]++;
+  g_batch.tso_runs += g.tso ? 1 : 0;
+  g_batch.tso_stores += g.tso_stores;
+  g_batch.tso_delays += g.tso_delays;
 }
 
 static void install_child_handlers()
@@ -867,6 +873,9 @@ static void add_batch(MsgBatch &a, const MsgBatch &b)
   a.g1_runs += b.g1_runs;
   for (int i = 0; i < 4; i++)
     a.strat_runs[i] += b.strat_runs[i];
+  a.tso_runs += b.tso_runs;
+  a.tso_stores += b.tso_stores;
+  a.tso_delays += b.tso_delays;
 }
 
 static pid_t fork_child(int *rfd)
@@ -1156,6 +1165,9 @@ static int cmd_worker(int argc, char **argv)
            (unsigned long)ws.batch.arena_bytes, (unsigned long)ws.batch.hb_overflow_runs,
            (unsigned long)ws.batch.g0_runs, (unsigned long)ws.batch.g1_runs, (unsigned long)ws.batch.strat_runs[0],
            (unsigned long)ws.batch.strat_runs[1], (unsigned long)ws.batch.strat_runs[2]);
+  j += b;
+  snprintf(b, sizeof b, "\"tso_runs\": %lu, \"tso_buffered_stores\": %lu, \"tso_delay_decisions\": %lu, ", (unsigned long)ws.batch.tso_runs,
+           (unsigned long)ws.batch.tso_stores, (unsigned long)ws.batch.tso_delays);
   j += b;
   j += "\"incidental_first\": \"" + jescape(ws.batch.incidental_first) + "\", ";
   json_counts(j, "faults_fired", sc->fault_names, ws.batch.fault_fired, MAX_FAULT_KINDS);
